@@ -13,6 +13,8 @@ structure Sw where
   outcome : Outcome
   spawned : Bool := false  -- the outcome happens in a spawned task
   regStep : Nat := 0       -- steps completed when it was registered
+  ticks : Nat := 0         -- ticks its runtime has received since it was (re)started; an aborted step
+                           -- (software error of a later host) still ticked the hosts before it
   running : Bool := true   -- handle still present (not finished, not crashed)
   deriving Repr, Inhabited
 
@@ -21,7 +23,7 @@ structure Sw where
 def Sw.effective (s : Sw) : Outcome :=
   if s.spawned && s.outcome == .err then .never else s.outcome
 
-/-- local step (1-based, counted from registration) in which the outcome is observed: the step
+/-- local tick (1-based, counted from the start of its runtime) in which the outcome is observed: the step
     whose window contains `at`; an instant on a step boundary belongs to the later step. -/
 def Sw.finStep (tick : Nat) (s : Sw) : Nat := s.atUs / tick + 1
 
@@ -43,16 +45,16 @@ def tickAll (tick k : Nat) : List Sw → List Sw × Bool × Option StepRes
     if !s.running then
       let (r, f, a) := tickAll tick k rest
       (s :: r, f, a)
-    else if s.finStep tick + s.regStep == k && s.effective != .never then
+    else if s.finStep tick == s.ticks + 1 && s.effective != .never then
       match s.effective with
       | .ok =>
         let (r, f, a) := tickAll tick k rest
-        ({ s with running := false } :: r, f, a)
-      | .err => ({ s with running := false } :: rest, false, some .errSoftware)
+        ({ s with running := false, ticks := s.ticks + 1 } :: r, f, a)
+      | .err => ({ s with running := false, ticks := s.ticks + 1 } :: rest, false, some .errSoftware)
       | _ => (s :: rest, false, some .panic)
     else
       let (r, f, a) := tickAll tick k rest
-      (s :: r, (if s.client then false else f), a)
+      ({ s with ticks := s.ticks + 1 } :: r, (if s.client then false else f), a)
 
 /-- the rest of `Sim::step` once every running software has been ticked. -/
 def stepOf (m : Sim) (sws : List Sw) (fin : Bool) (abort : Option StepRes) : Sim × StepRes :=
@@ -85,8 +87,8 @@ def crash (m : Sim) (i : Nat) : Sim :=
 
 /-- `Sim::bounce`: the host's software is started afresh on a new runtime. -/
 def bounce (m : Sim) (i : Nat) : Sim :=
-  { m with sws := m.sws.mapIdx (fun j s => if j == i then { s with running := true, regStep := m.steps } else s) }
+  { m with sws := m.sws.mapIdx (fun j s => if j == i then { s with running := true, regStep := m.steps, ticks := 0 } else s) }
 
-def register (m : Sim) (s : Sw) : Sim := { m with sws := m.sws ++ [{ s with regStep := m.steps }] }
+def register (m : Sim) (s : Sw) : Sim := { m with sws := m.sws ++ [{ s with regStep := m.steps, ticks := 0 }] }
 
 end TV.Run
